@@ -145,7 +145,7 @@ func vpAssert(c bool, msg string) {
 
 // vpBound selects a bound by tier (the replay always uses the larger one: vectors carry lengths).
 func vpBound(quick, thorough int) int { return thorough }
-func vpThorough() bool               { return true }
+func vpThorough() bool                { return true }
 
 // vpSymbolic is true under the symbolic executor and false natively.
 func vpSymbolic() bool { return false }
@@ -154,3 +154,7 @@ func vpMustBlock()    {}
 func vpMustBlockEnd() {}
 func vpBlockedOK()    {}
 func vpYield()        {}
+
+// vpMaxAllocSize: the largest allocation made from a symbolic (file-borne) size on this path.
+// Natively unknown: 0.
+func vpMaxAllocSize() int { return 0 }
